@@ -21,6 +21,15 @@ def model(fn):
     return fn
 
 
+class MaybeUndef:
+    """template entry for a variable that is not yet bound before the first iteration
+    (bound by the body before it is read).  Skipped at the init check; at havoc the value
+    is installed (for k = 0 it is an unconstrained ghost value)."""
+
+    def __init__(self, val, defined=None):
+        self.val, self.defined = val, defined
+
+
 class LoopInv:
     """Inductive invariant in *template* form: template(ip, frame, k) returns a dict
     lvalue -> value describing the state of every variable/field the loop modifies at the
@@ -69,6 +78,10 @@ class LoopInv:
         for n, fact in enumerate(tmpl.pop('@facts', [])):
             ip.prove('%s/%s/fact%d' % (self.name, phase, n), fact)
         for path, want in tmpl.items():
+            if isinstance(want, MaybeUndef):
+                if phase == 'init':
+                    continue
+                want = want.val
             try:
                 have = self._get(ip, frame, path)
             except (KeyError, Unsupported):
@@ -87,6 +100,8 @@ class LoopInv:
             raise Infeasible()
         guard = LoopGuard(ip, frame, list(tmpl.keys()), self.name)
         for path, val in tmpl.items():
+            if isinstance(val, MaybeUndef):
+                val = val.val
             c = _clone(val)
             self._set(ip, frame, path, c)
             guard.note_installed(c)
@@ -429,6 +444,21 @@ def discharge(ob, timeout_ms, target, ctx):
         else:
             s.set('timeout', timeout_ms)
             r = s.check()
+    if r == z3.unknown:
+        # z3 may answer unknown ("incomplete (theory array)") although it holds a genuine
+        # counter-model; validate the candidate model against every assertion.
+        try:
+            m = s.model()
+            if all(z3.is_true(m.eval(a, model_completion=True)) for a in s.assertions()):
+                r = z3.sat
+                out['backend'] = 'z3 (candidate model validated)'
+        except Exception:
+            pass
+    if r == z3.unknown:
+        r3 = _z3_cli(s, timeout_ms)
+        if r3 is not None:
+            out['backend'] = 'z3-4.8.12-cli'
+            r = r3
     if r == z3.unsat or r == 'unsat':
         out['result'] = 'discharged'
     elif r == z3.sat:
@@ -477,6 +507,25 @@ def _val(m, v):
             return False
         return str(e)
     return str(v)
+
+
+def _z3_cli(solver, timeout_ms):
+    """independent older z3 (4.8.12 CLI) on the dumped SMT-LIB"""
+    try:
+        with tempfile.NamedTemporaryFile('w', suffix='.smt2', delete=False) as f:
+            f.write(solver.to_smt2())
+            path = f.name
+        try:
+            p = subprocess.run(['/usr/bin/z3', '-T:%d' % max(1, timeout_ms // 1000), path],
+                               capture_output=True, text=True, timeout=timeout_ms / 1000 + 5)
+            out = p.stdout.strip().split('\n')[0] if p.stdout else ''
+        finally:
+            os.unlink(path)
+        if out in ('sat', 'unsat'):
+            return out
+    except Exception:
+        pass
+    return None
 
 
 def _cvc5(solver, timeout_ms):
